@@ -17,7 +17,7 @@ func init() {
 		Level: "other",
 		Explanation: "Decided (structural necessary conditions of 'splitting never corrupts text' and of termination): (R13.1) every bound of every string slice in package rag whose result can reach returned text is a rune boundary by construction: 0, len(s), a strings.Index* result (+ len of the match), an index at which the same function tested s[i] against ASCII constants (then i and i+1), a range-over-string key, a value snapped by a utf8.RuneStart loop, a Boundary.Position, or the result of a callee whose every return is such a value; raw arithmetic from a size is rejected; (R13.2) the split loop of SplitToSize continues only with a strictly shorter remainder (cut position proven > 0, remainder obtained by slicing from it and non-lengthening functions) and stops otherwise; (R13.3) overlap is generated from the previous chunk's own text. " +
 			"Not decided: the size bound itself (numeric), conservation of characters, token estimates.",
-		Rules: []func(*eng.Ctx){ruleTokenRatioDefaulted, loopVarRule("R13.LV", "rag"), ruleRuneBoundary, ruleSplitProgress, ruleOverlapSource, ruleRatioAgreement, ruleSplitLoopDrains, ruleHardLimitGuard, roleRule("R13.R", "rag"), ruleSentenceIndexSteps, ruleWholeBlockOnlyUnderMax, ruleIndexUnits, ruleFlushConsumesPending},
+		Rules: []func(*eng.Ctx){ruleTruncatedOverlapKeepsEnd, ruleTokenRatioDefaulted, loopVarRule("R13.LV", "rag"), ruleRuneBoundary, ruleSplitProgress, ruleOverlapSource, ruleRatioAgreement, ruleSplitLoopDrains, ruleHardLimitGuard, roleRule("R13.R", "rag"), ruleSentenceIndexSteps, ruleWholeBlockOnlyUnderMax, ruleIndexUnits, ruleFlushConsumesPending},
 	})
 }
 
@@ -430,25 +430,89 @@ func ruleOverlapSource(c *eng.Ctx) {
 		c.Viol(R, "rag.ApplyOverlapToChunks#source", fn.Pos(), "overlap is not generated with GenerateOverlap")
 		return
 	}
+	// stores to the Text of a chunk in this function (the overlapped text is written back into the chunks)
+	var textStores []*ssa.Store
+	eng.Instrs(fn, false, func(in ssa.Instruction) {
+		if st, ok := in.(*ssa.Store); ok {
+			if fr, ok := eng.AsField(st.Addr); ok && fr.Field == "Text" && strings.HasSuffix(fr.Struct, "rag.Chunk") {
+				textStores = append(textStores, st)
+			}
+		}
+	})
+	before := func(a, b ssa.Instruction) bool { // a runs before b within one trip
+		if a.Block() == b.Block() {
+			for _, in := range a.Block().Instrs {
+				if in == a {
+					return true
+				}
+				if in == b {
+					return false
+				}
+			}
+		}
+		return a.Block().Dominates(b.Block())
+	}
 	for _, ci := range calls {
 		arg := ci.Common().Args[1]
 		fromInput, fromResult := false, false
+		var textLoads []ssa.Instruction
 		for v := range eng.Slice(arg, nil) {
 			if ia, ok := v.(*ssa.IndexAddr); ok {
 				if ia.X == ssa.Value(fn.Params[0]) {
 					fromInput = true
-					// index i-1
-					if b, ok := ia.Index.(*ssa.BinOp); !ok || b.Op != token.SUB {
-						fromInput = false
-					}
 				} else if _, isParam := ia.X.(*ssa.Parameter); !isParam {
-					if _, isMk := ia.X.(*ssa.MakeSlice); isMk {
-						fromResult = true
+					if mk, isMk := ia.X.(*ssa.MakeSlice); isMk {
+						if _, isStr := mk.Type().Underlying().(*types.Slice).Elem().Underlying().(*types.Basic); isStr {
+							fromInput = true // a copy of the texts made beforehand
+						} else {
+							fromResult = true
+						}
 					}
 				}
 			}
+			if u, ok := v.(*ssa.UnOp); ok && u.Op == token.MUL {
+				if fr, ok := eng.AsField(u.X); ok && fr.Field == "Text" && strings.HasSuffix(fr.Struct, "rag.Chunk") {
+					textLoads = append(textLoads, u)
+				}
+			}
 		}
-		c.Check(fromInput && !fromResult, R, "rag.ApplyOverlapToChunks#source", ci.Pos(), "overlap text comes from the previous input chunk", "overlap for a chunk is not taken from the previous chunk's own (un-overlapped) text: overlaps accumulate or come from the wrong chunk")
+		// a Text that is read where an earlier trip of the loop may already have overwritten it is not the chunk's own
+		// text: the read has to come before the function's stores to Text (its value carried to the next trip), or the
+		// function must not write Text at all
+		stale := false
+		for _, ld := range textLoads {
+			// the Text of an EARLIER element (chunks[i-1]) was written by an earlier trip, if the function writes Text at all
+			earlier := false
+			for w := range eng.Slice(ld.(*ssa.UnOp).X, nil) {
+				if ia, ok := w.(*ssa.IndexAddr); ok {
+					if b, ok := ia.Index.(*ssa.BinOp); ok && b.Op == token.SUB {
+						earlier = true
+					}
+				}
+			}
+			if earlier && len(textStores) > 0 {
+				stale = true
+			}
+			for _, st := range textStores {
+				if !before(ld, st) {
+					stale = true
+				}
+			}
+		}
+		if len(textLoads) > 0 && !stale {
+			fromInput = true
+		}
+		var why []string
+		if !fromInput {
+			why = append(why, "the text is not read from the input chunks")
+		}
+		if fromResult {
+			why = append(why, "the text is read from the result being built")
+		}
+		if stale {
+			why = append(why, "the previous chunk's Text is read after this function has written overlapped text into the chunks")
+		}
+		c.Check(len(why) == 0, R, "rag.ApplyOverlapToChunks#source", ci.Pos(), "overlap text comes from the previous chunk's own text", "overlap for a chunk is not taken from the previous chunk's own (un-overlapped) text ("+strings.Join(why, "; ")+"): overlaps accumulate, and a chunk shorter than the overlap hands on text it inherited")
 	}
 }
 
